@@ -142,6 +142,11 @@ func replay(recs []record, sidx, sterm uint64) replayResult {
 					return replayResult{why: fmt.Sprintf("entry %d does not connect (have %d after snapshot %d)", r.index, len(res.ents), sidx)}
 				}
 				res.ents = append(res.ents[:up:up], r.canon)
+			} else {
+				// "replaces the earlier one and everything after it" also holds for an entry at or
+				// below the snapshot index: what was read above the snapshot is dead (the model
+				// first followed wal.ReadAll, which forgot this; see C03-wal-replay-resurrects-truncated-suffix)
+				res.ents = res.ents[:0]
 			}
 		case rkState:
 			res.state = r.canon
